@@ -14,7 +14,12 @@ for sid in sorted(os.listdir(root)):
     patch = os.path.join(d, "patch.diff")
     if not os.path.isfile(patch) or (only and sid not in only):
         continue
-    r = sh("git", "-C", "/repo", "apply", patch)
+    import glob
+    r = None
+    for pth in [patch] + sorted(glob.glob(os.path.join(d, "patch_rebased_*.diff")), reverse=True):
+        r = sh("git", "-C", "/repo", "apply", pth)
+        if r.returncode == 0:
+            break
     if r.returncode != 0:
         out[sid] = {"error": "patch does not apply: " + r.stdout[-300:]}
         print(sid, "PATCH DOES NOT APPLY"); continue
